@@ -100,6 +100,10 @@ func Read(r io.Reader) (*Frame, error) {
 // bodies are sent as a literals-only LZ4 block instead, so that the search continues.
 var Lz4Excluded int64
 
+// Lz4Incompressible counts bodies for which the reference compressor produced no valid block at all
+// (incompressible input); they are sent as a literals-only block as well.
+var Lz4Incompressible int64
+
 // Lz4Raw makes Compress skip the exclusion (used to demonstrate the known finding).
 var Lz4Raw int32
 
@@ -117,7 +121,10 @@ func Compress(alg string, plain []byte) ([]byte, error) {
 					atomic.AddInt64(&Lz4Excluded, 1)
 					return Lz4Literals(plain), nil
 				}
-				return nil, fmt.Errorf("harness: lz4 compressor produced an invalid block")
+				// the reference compressor writes an empty block when the input is incompressible
+				// (pierrec's CompressBlock returns 0 then): not a block at all
+				atomic.AddInt64(&Lz4Incompressible, 1)
+				return Lz4Literals(plain), nil
 			}
 		}
 	case "snappy":
